@@ -508,6 +508,11 @@ class CallMixin:
             raise Unsupported(f"call of non-functional {c.key} inside a comprehension / generator body", n)
         self._cur_call_state = st
         self._last_called = c
+        if c.is_async and not st.meta.get("awaiting") and not st.meta.get("running_coro") and st.mode != "spec":
+            # calling a coroutine function only creates the coroutine object; it runs when awaited / scheduled
+            yield st, V(T.PY, ("coro", c, list(args), dict(kwargs)))
+            return
+        st = st.set_meta("running_coro", False)
         bound = self.bind_params(c, args, kwargs, n)
         env = self.spec_env_for_call(c, bound, st)
         self.stats["calls"] += 1
@@ -661,6 +666,14 @@ class CallMixin:
         self._last_called = None
         results = list(self.evx(inner, st.set_meta("awaiting", True), inner_sink))
         lc = self._last_called
+        if results and all(v.ty is T.PY and isinstance(v.z, tuple) and v.z and v.z[0] == "coro" for _, v in results):
+            # `await coro_object`: the coroutine runs now
+            sink.extend(inner_sink)
+            for st1, v in results:
+                _, cc, cargs, ckw = v.z
+                for st2, r in self.call_contract(cc, cargs, ckw, st1.set_meta("running_coro", True), sink, n):
+                    yield st2.set_meta("awaiting", False), r
+            return
         if lc is not None and lc.is_async:
             # awaiting a coroutine function that is itself under contract: it runs synchronously up to ITS first
             # suspension; interference and cancellation points are the ones inside it (its own contract)
